@@ -87,6 +87,9 @@ class RealNet:
     def set_fates(self, fates):
         pass
 
+    def ephemeral(self):
+        return 0
+
     def next_recv_pos(self):
         p = self.recv_pos
         self.recv_pos += 1
@@ -123,61 +126,21 @@ class Summary:
         self.rows = []
 
 
+class RealRouterRun(R.RouterRun):
+    """The same executor, model and oracle, on real 127.0.0.1 sockets."""
+
+    def _make_net(self, cfg):
+        self.clock = type("C", (), {"now": 0.0, "advance": lambda self, dt: time.sleep(min(dt, 0.01))})()
+        self.net = RealNet(self.log)
+        self.sockmod = RealSocketModule(self.net)
+
+    def _make_peer_socket(self, label):
+        return RealSock(self.net, label)
+
+
 def run_backend(trace, backend):
-    run = R.RouterRun.__new__(R.RouterRun)
-    # build like RouterRun.__init__, but with a pluggable network
-    m = R._load()
-    run.trace = trace
-    cfg = trace["config"]
-    run.log = EventLog(keep=False)
-    if backend == "sim":
-        from dsim.net import SimClock, SimNet, SimSocket, SimSocketModule
-        run.clock = SimClock()
-        run.net = SimNet(run.clock, run.log, cfg.get("inbox_cap", 64))
-        run.sockmod = SimSocketModule(run.net)
-        mk_peer = lambda label: SimSocket(run.net, label)
-    else:
-        run.clock = type("C", (), {"now": 0.0, "advance": lambda self, dt: time.sleep(min(dt, 0.01))})()
-        run.net = RealNet(run.log)
-        run.sockmod = RealSocketModule(run.net)
-        mk_peer = lambda label: RealSock(run.net, label)
-    run.net.force_nodata = frozenset()
-    run.net.hook_recv = run._sock_recv
-    run.net.hook_send = run._sock_send
-    m["udp"].socket = run.sockmod
-    run.faults = Counter()
-    run.probes = Counter()
-    run.states = set()
-    run.transitions = set()
-    run.ctx = R._Ctx()
-    run.n_data_recv = 0
-    run.n_nontrivial = 0
-    run.steps_done = 0
+    run = (R.RouterRun if backend == "sim" else RealRouterRun)(trace)
     run.collect = False
-    Mem = R._mem_class()
-    run.hubs = []
-    for hi, hc in enumerate(cfg["hubs"]):
-        hub = R._Hub()
-        hub.cfg = hc
-        hub.comms = m["core"].Comms()
-        for e in hc["eps"]:
-            if e["kind"] == "udp":
-                hub.comms.newComPort(e["n"], "UDP", "127.0.0.1", e["rx"], e["tx"], e["tau"])
-                if "buf" in e:
-                    hub.comms.endpoints[e["n"]].setBufferLen(e["buf"])
-            else:
-                hub.comms.endpoints[e["n"]] = Mem(run, hi, e["n"], e.get("link"))
-            hub.kinds[e["n"]] = e
-        hub.model = R.HubModel([e["n"] for e in hc["eps"]])
-        run.hubs.append(hub)
-    run.peers = {}
-    for p in cfg.get("peers", []):
-        s = mk_peer("peer:" + p["n"])
-        s.settimeout(0.001)
-        s.bind(("127.0.0.1", p["port"]))
-        run.peers[p["n"]] = s
-    run.sink_recs = [R._Rec(run, "sink", i, "func") for i in range(3)]
-    run.source_recs = [R._Rec(run, "source", i, "func") for i in range(3)]
     run._deleted = set()
     run._seen_vals = set()
     run._held_vals = set()
@@ -185,10 +148,6 @@ def run_backend(trace, backend):
     viol = None
     try:
         for st in trace["steps"]:
-            if st["op"] == "peer_send" and st.get("p") not in run.peers:
-                # anonymous peers need a socket of the right backend
-                run.peers["_anon"] = run.peers.get("_anon") or mk_peer("peer:anon")
-                st = dict(st, p="_anon")
             try:
                 run.step(st)
             except R.Violation as v:
@@ -197,7 +156,7 @@ def run_backend(trace, backend):
             rows.append({"op": st["op"],
                          "recvs": sorted((r[0], r[1], r[3]) for r in c.recvs if r[3] is not None),
                          "nodata": sorted((r[0], r[1]) for r in c.recvs if r[3] is None),
-                         "deliv": sorted(repr(d) for d in c.deliv + c.src_deliv),
+                         "deliv": sorted(repr((d[0], d[1], d[2], d[3][0] if d[0] == "wire" else d[3])) for d in c.deliv),
                          "violation": viol.clause if viol else None})
             if viol:
                 break
